@@ -86,6 +86,8 @@ pub struct Pair {
     /// "another thread" holds the keyboard / display buffer lock during the next step (the real RwLock write guard is taken)
     pub hold_kb: bool,
     pub hold_disp: bool,
+    /// the holder is a reader: it takes the shared (read) guard instead of the write guard
+    pub hold_read: bool,
 }
 
 pub fn build(m: &Machine) -> Pair {
@@ -111,7 +113,36 @@ pub fn build(m: &Machine) -> Pair {
     sim.write_mem(SSP_PORT, Word::new_init(m.saved_sp), omni).expect("set saved SP"); rf.saved_sp = m.saved_sp; rf.set_mem(SSP_PORT, m.saved_sp);
     if m.kb_ie && m.kb.is_some() { sim.write_mem(KBSR, Word::new_init(0x4000), omni).expect("set IE"); rf.kb_ie = true; rf.set_mem(KBSR, 0x4000); }
     sim.observer.clear();
-    Pair { sim, rf, kb, disp, rec, sources: vec![], extra: vec![], hold_kb: false, hold_disp: false }
+    Pair { sim, rf, kb, disp, rec, sources: vec![], extra: vec![], hold_kb: false, hold_disp: false, hold_read: false }
+}
+
+/// A pair whose simulator was used before: `prior` (same device configuration as `m`) is set up and run for up to `steps` steps, the
+/// flags are switched to `m`'s, `reset()` is called, and `m` is then set up through the public fields exactly as `build` does on a
+/// fresh simulator (the saved stack pointer is only written when `m` asks for a non-default one). The reference machine is fresh.
+pub fn build_reused(m: &Machine, prior: &Machine, steps: u32) -> Result<Pair, String> {
+    assert!(prior.kb.is_some() == m.kb.is_some() && prior.display == m.display && prior.custom == m.custom);
+    let mut p = build(prior);
+    catch(std::panic::AssertUnwindSafe(|| {
+        for _ in 0..steps { let before = (p.sim.pc, p.sim.instructions_run); if p.sim.step_in().is_err() || (p.sim.pc, p.sim.instructions_run) == before { break; } }
+        p.sim.flags = SimFlags { strict: m.strict, use_real_traps: m.real_traps, machine_init: MachineInitStrategy::Known { value: FILL }, debug_frames: m.debug_frames, ignore_privilege: m.ignore_priv };
+        p.sim.reset();
+    }))?;
+    let fresh = build(m); // supplies the reference machine (and is dropped)
+    let Pair { rf, .. } = fresh;
+    p.rf = rf;
+    { let mut q = p.kb.get_buffer().write().unwrap(); q.clear(); q.extend(m.kb.clone().unwrap_or_default()); }
+    p.disp.get_buffer().write().unwrap().clear();
+    p.rec.log.lock().unwrap().clear();
+    let sim = &mut p.sim;
+    for (a, v) in &m.pokes { sim.mem[*a].set(*v); }
+    for i in 0..8 { sim.reg_file[reg(i)].set(m.regs[i as usize]); }
+    sim.pc = m.pc;
+    let omni = MemAccessCtx::omnipotent();
+    sim.write_mem(0xFFFC, Word::new_init(m.psr), omni).map_err(|e| format!("set PSR: {e:?}"))?;
+    if m.saved_sp != 0x3000 { sim.write_mem(SSP_PORT, Word::new_init(m.saved_sp), omni).map_err(|e| format!("set saved SP: {e:?}"))?; }
+    if m.kb_ie && m.kb.is_some() { sim.write_mem(KBSR, Word::new_init(0x4000), omni).map_err(|e| format!("set IE: {e:?}"))?; }
+    sim.observer.clear();
+    Ok(p)
 }
 
 impl Pair {
@@ -154,8 +185,10 @@ pub fn step_compare(p: &mut Pair, check_observer: bool) -> Result<StepInfo, (Str
     p.rf.kb_locked = false; p.rf.disp_locked = false;
     let stepped = {
         let (kbuf, dbuf) = (p.kb.get_buffer().clone(), p.disp.get_buffer().clone());
-        let _gk = if p.hold_kb { Some(kbuf.write().unwrap()) } else { None };
-        let _gd = if p.hold_disp { Some(dbuf.write().unwrap()) } else { None };
+        let _gk = if p.hold_kb && !p.hold_read { Some(kbuf.write().unwrap()) } else { None };
+        let _gd = if p.hold_disp && !p.hold_read { Some(dbuf.write().unwrap()) } else { None };
+        let _rk = if p.hold_kb && p.hold_read { Some(kbuf.read().unwrap()) } else { None };
+        let _rd = if p.hold_disp && p.hold_read { Some(dbuf.read().unwrap()) } else { None };
         catch(|| p.sim.step_in())
     };
     let res = match stepped { Ok(r) => r, Err(m) => return Err((format!("panic:{}", panic_site(&m)), format!("step_in panicked at pc=x{pre_pc:04X}: {m}"))) };
